@@ -253,6 +253,11 @@ class Case:
                     submitted.add(ri)
                     self.submit_and_judge(ri, by_e2e, seen, first=False)
                     continue
+                if sp["resubmit"] == "split" and ri not in submitted and pos <= sp["fault_pos"] and \
+                        self.sock_ready(self.req_sock[ri]):
+                    self.split_submit(ri, by_e2e, seen)
+                    submitted.add(ri)
+                    continue
                 if sp["resubmit"] == "overlap" and ri not in submitted:
                     self.submit_overlapping(ri, by_e2e, seen)
                     submitted.add(ri)
@@ -363,6 +368,42 @@ class Case:
                 self.witness(mech("answer.no_error_although_not_routable"), ctx)
             elif type(exc).__name__ != "NotRoutable":
                 self.witness("answer.wrong_exception_type", ctx)
+
+    def split_submit(self, ri, by_e2e, seen):
+        """The two steps of a submission (Node.route_answer, then Node.send_message with the connection it returned -
+        what Application.send_answer does, both public) with the case's fault falling between them. Whatever the
+        fault: the answer appears on no connection other than the one the request arrived on, and at most once."""
+        h, node = self.h, self.w.node
+        S = self.req_sock[ri]
+        ans = self.app.build_answer(by_e2e[ri], 2001)
+        try:
+            conn, ans = node.route_answer(ans)
+        except Exception:
+            return
+        self.do_fault()
+        self.spec["fault_pos"] = -1          # the fault of this case has happened
+        h.settle()
+        try:
+            node.send_message(conn, ans)
+        except Exception as e:
+            k = "split_send_raised." + type(e).__name__
+            self.run.cov[k] = self.run.cov.get(k, 0) + 1
+        h.settle()
+        self.unanswered.discard(ri)
+        self.tainted = True                  # whether the request counts as answered is not decided here
+        self.judged += 1
+        self.run.cov["split_submissions_with_fault_between"] = self.run.cov.get("split_submissions_with_fault_between", 0) + 1
+        where = []
+        for q in self.all_peers():
+            q.drain()
+            new = q.frames[seen.get(id(q), 0):]
+            seen[id(q)] = len(q.frames)
+            where += [q for f in new if not f.is_request and f.h.code == 272]
+        ctx = {"request": ri, "ids": self.req_ids[ri], "sent_on": [q.pid for q in where], "expected_sock": S.pid}
+        if any(q is not S for q in where):
+            self.witness("answer.sent_on_wrong_connection.fault_between_route_and_send", ctx)
+        elif len(where) > 1:
+            self.witness("answer.second_submission_transmitted.split", ctx)
 
     def submit_overlapping(self, ri, by_e2e, seen):
         """Two threads submit the answer for one request at the same moment; handing the message to the connection
@@ -557,7 +598,7 @@ def run_shard(spec):
                                     j = i // spec["parts"]
                                     via = FIRST_VIA[(j // 4) % 3] if (fault in ("none", "foreign_same_ids", "dpr", "second_conn")) else "send_answer"
                                     run.one(npeers, pl, order, fault, pos, tgt,
-                                            resubmit={0: True, 1: "overlap"}.get(j % 4, False) if via == "send_answer" else True,
+                                            resubmit={0: True, 1: "overlap", 2: "split"}.get(j % 4, False) if via == "send_answer" else True,
                                             first_via=via)
     elif spec["kind"] == "random":
         for _ in range(spec["n"]):
@@ -577,7 +618,7 @@ def run_shard(spec):
             via = rng.choice(["send_answer"] * 3 + ["direct", "raise", "mixed", "mixed"])
             run.one(npeers, pl, order, rng.choice(FAULTS + ["foreign_same_ids"]), rng.randrange(nreq + 1),
                     rng.randrange(npeers),
-                    resubmit=rng.choice([False, False, False, False, True, True, "overlap"]) if via == "send_answer" else True,
+                    resubmit=rng.choice([False, False, False, False, True, True, "overlap", "split", "split"]) if via == "send_answer" else True,
                     first_via=via, same_e2e=rng.random() < 0.4)
     else:
         for _ in range(spec["n"]):
